@@ -1115,7 +1115,11 @@ class _Visitor(ast.NodeVisitor):
                         kwargs[name] = kwarg_value.val
                     else:
                         return None
-            return KnownValue(func.val(*args, **kwargs))
+            try:
+                return KnownValue(func.val(*args, **kwargs))
+            except Exception as e:
+                self.ctx.show_error(f"Invalid call to NewType: {e}", node=node)
+                return None
         elif is_typing_name(func.val, "TypeVar"):
             arg_values = [self.visit(arg) for arg in node.args]
             kwarg_values = [(kw.arg, self.visit(kw.value)) for kw in node.keywords]
